@@ -1,46 +1,53 @@
 #!/bin/bash
-# tools/selftest.sh [PROP ...]
-# Must-fail corpus: applies every confirmed seeded change under /verif/seeded to
-# /repo (git apply), runs the quick check of the property it breaks, undoes it
-# (git apply -R) and records in seeded/<id>/meta.json whether the check reported a
-# violation and through which obligation.  Then runs every check on the unchanged
-# tree (must exit 0).  Never commits anything to /repo; refuses to run on a dirty
-# /repo working tree.
+# tools/selftest.sh [-j N] [PROP ...]
+# Must-fail corpus.  Every confirmed seeded change under /verif/seeded is applied to a
+# SCRATCH worktree of /repo's HEAD (under /var/tmp, removed afterwards; /repo itself is
+# never touched), the quick check of the property it breaks is run against that
+# worktree (VERIF_REPO), and the outcome is recorded in seeded/<id>/meta.json.
+# Then every check is run on the unchanged tree (/repo), which must exit 0.
 set -u
 cd /verif
-if [ -n "$(git -C /repo status --porcelain)" ]; then echo "selftest: /repo working tree is not clean"; exit 2; fi
+J=3
+if [ "${1:-}" = "-j" ]; then J=$2; shift 2; fi
 want="$*"
-rc=0
+ids=()
 for d in seeded/*/; do
   id=$(basename $d); prop=${id%%-*}
   if [ -n "$want" ] && ! echo " $want " | grep -q " $prop "; then continue; fi
   [ -f props/$prop.json ] || { echo "$id: no check for $prop (not claimed)"; continue; }
-  patch=/verif/$d/patch.diff
-  # a later fix: commit may have rewritten the lines the original change touches;
-  # patch.current.diff is the same change re-made by hand on the current tree
-  if ! git -C /repo apply --check $patch 2>/dev/null && [ -f /verif/$d/patch.current.diff ]; then patch=/verif/$d/patch.current.diff; fi
-  if ! git -C /repo apply --check $patch 2>/dev/null; then
-    # the seeded change was written against the pinned tree; a later fix: commit
-    # may have rewritten the lines it touches
-    echo "$id: patch no longer applies to the current tree (see meta.json)"; continue
-  fi
-  git -C /repo apply $patch
-  out=$(./check $prop quick 2>&1); ex=$?
-  git -C /repo apply -R $patch
-  if [ -n "$(git -C /repo status --porcelain)" ]; then echo "selftest: could not undo $id"; exit 2; fi
-  viol=$(echo "$out" | grep -c '^VIOLATION')
-  python3 - "$d/meta.json" "$prop" "$ex" "$viol" <<PY
+  ids+=($id)
+done
+one() {
+  id=$1; prop=${id%%-*}
+  WT=/var/tmp/selftest.$$.$id
+  git -C /repo worktree add -q --detach $WT HEAD || { echo "$id: cannot create worktree"; return; }
+  patch=/verif/seeded/$id/patch.diff
+  if ! git -C $WT apply --check $patch 2>/dev/null && [ -f /verif/seeded/$id/patch.current.diff ]; then patch=/verif/seeded/$id/patch.current.diff; fi
+  if ! git -C $WT apply $patch 2>/dev/null; then
+    echo "$id: patch no longer applies to the current tree"
+  else
+    out=$(VERIF_REPO=$WT VERIF_SCRATCH_OUT=$WT.out ./bin/gocv check $prop quick 2>&1); ex=$?
+    viol=$(echo "$out" | grep -c '^VIOLATION')
+    python3 - "/verif/seeded/$id/meta.json" "$prop" "$ex" "$viol" "$(echo "$out" | grep '^VIOLATION' | head -5)" <<'PY'
 import json,sys,re
-p,prop,ex,viol=sys.argv[1],sys.argv[2],int(sys.argv[3]),int(sys.argv[4])
-out='''$(echo "$out" | grep '^VIOLATION' | head -5)'''
+p,prop,ex,viol,out=sys.argv[1],sys.argv[2],int(sys.argv[3]),int(sys.argv[4]),sys.argv[5]
 m=json.load(open(p))
 obl=[re.sub(r'.*replay=\S*/','',l).split()[0].replace('.json','') for l in out.splitlines() if l.strip()]
-m['detected_by']={'check':prop+' quick','exit':ex,'violations':viol,'obligations':obl} if (ex==1 and viol>0) else None
+conf=[('no-failing-input-found' not in l) for l in out.splitlines() if l.strip()]
+m['detected_by']={'check':prop+' quick','exit':ex,'violations':viol,'obligations':obl,'failing_input_found':any(conf)} if (ex==1 and viol>0) else None
 m['last_selftest_exit']=ex
 json.dump(m,open(p,'w'),indent=1)
 PY
-  if [ $ex -eq 1 ] && [ $viol -gt 0 ]; then echo "$id: DETECTED ($viol)"; else echo "$id: MISSED (exit $ex)"; echo "$out" | tail -5 > /var/tmp/selftest_miss_$id.log; rc=1; fi
-done
+    if [ $ex -eq 1 ] && [ $viol -gt 0 ]; then echo "$id: DETECTED ($viol)"; else echo "$id: MISSED (exit $ex)"; echo "$out" | tail -5 > /var/tmp/selftest_miss_$id.log; fi
+  fi
+  git -C /repo worktree remove --force $WT >/dev/null 2>&1
+  rm -rf $WT.out
+}
+export -f one
+printf '%s\n' "${ids[@]}" | xargs -P $J -I{} bash -c 'one {}' | tee /var/tmp/selftest.$$.log
+rc=0
+grep -q "MISSED\|cannot create" /var/tmp/selftest.$$.log && rc=1
+rm -f /var/tmp/selftest.$$.log
 # unchanged tree
 for f in props/*.json; do
   prop=$(basename $f .json)
